@@ -1184,6 +1184,55 @@ impl Interp {
                 }
                 Act::SetOracle { v, price }
             }
+            Op::LagSqueeze { v, target, knob } => {
+                // a whale trade sized (bisection on a what-if copy) so that the target's margin ratio *at the spot price* lands at /
+                // just below maintenance, then a block 1 to 15 minutes later, then a liquidation attempt: spot and 15-minute TWAP
+                // disagree about the position for as long as the move is younger than the window
+                let v = self.v_of(*v);
+                let target = pick_holder(pre, v, *target, true);
+                let p = match &pre.pos[v][target] {
+                    Some(p) if !p.size.is_zero() && target != WHALE => p.clone(),
+                    _ => return Act::Skip,
+                };
+                let pr0 = match crate::oracle::pos_ref(&self.w, pre, v, target) {
+                    Some(x) => x,
+                    None => return Act::Skip,
+                };
+                let long = !p.size.is_negative();
+                let up = !long;
+                let maint = S::pos(pre.ecfg.maintenance_margin_ratio.u128());
+                let offs: [i128; 5] = [0, -1, -20, -100, 1];
+                let goal = maint.add(&S::from_i128(offs[idx(*knob, offs.len())] * (d as i128) / 1000));
+                let x = pre.v[v].state.quote_asset_reserve.u128();
+                let (mut lo, mut hi) = (0u128, if up { 5_000_000u128 } else { 980_000u128 });
+                let snap = self.w.snapshot();
+                for _ in 0..14 {
+                    let mid = (lo + hi) / 2;
+                    let act = self.whale_trade(pre, v, up, push_quote_amount(x, up, mid));
+                    let r = self.exec_act(&act);
+                    let ratio = if r.ok {
+                        self.output_amount(v, p.direction.clone(), p.size.value.u128()).filter(|n| *n > 0).map(|n| {
+                            let pnl = crate::refmath::pnl(long, n, pr0.notional);
+                            crate::refmath::ratio(pr0.equity(&pnl), n, d)
+                        })
+                    } else {
+                        None
+                    };
+                    self.w.restore(&snap);
+                    match ratio {
+                        Some(rt) if rt.gt(&goal) => lo = mid,
+                        _ => hi = mid,
+                    }
+                }
+                if hi == 0 {
+                    return Act::Skip;
+                }
+                let dts: [u64; 10] = [60, 120, 300, 450, 600, 840, 899, 900, 901, 15];
+                let dt = dts[(*knob as usize) % dts.len()];
+                self.w.follow.push_back(Act::NextBlock { dt });
+                self.w.follow.push_back(Act::Liquidate { who: self.w.liquidator.clone(), v, target, limit: 0, attach: 0 });
+                self.whale_trade(pre, v, up, push_quote_amount(x, up, hi))
+            }
             Op::Handover { to } => {
                 // the pauser role is handed to a trading account (or back to the deployment's pauser account)
                 let mut cands: Vec<String> = self.w.traders.clone();
